@@ -10,6 +10,7 @@ mod solout;
 mod monitors;
 mod runs;
 mod xsolve;
+mod lu;
 
 fn main() {
     let args: Vec<String> = std::env::args().collect();
@@ -25,6 +26,7 @@ fn main() {
         "matrix-oracle" => matrix::oracle(rest),
         "xsolout" => solout::run(rest),
         "xsolve" => xsolve::run(rest),
+        "xlu" => lu::run(rest),
         "event-check" => monitors::events(rest),
         "teval-check" => monitors::teval(rest),
         "interval-check" => runs::interval(rest),
